@@ -31,13 +31,16 @@ SPEC['C05'] = ('Hidden dependencies are always detected', ['Local', 'Findings'],
   ('C05_write_rejected_before_modification', 'Local', 'sess_write_rejected', 'a diagnosed Context::write aborts before the resource is modified'),
   ('C05_final_store_refuted', 'Findings', 'C05_final_store_refuted', 'recorded finding (O6): the "Hence" clause fails when an intermediate task drops its require but keeps its output'),
 ], 'Detection is proved at the operation level for all worlds; the "Hence" clause is a recorded finding.')
-SPEC['C06'] = ('Overlapping writes are always detected', ['Local'], [
+SPEC['C06'] = ('Overlapping writes are always detected', ['Local', 'History'], [
+  ('C06_store_invariant_all_histories', 'History', 'reachable_store_ok', 'for ALL programs, checkers, fuel and histories (edits, sessions of requires and bottom-up builds, including worlds left by aborts): the store is a well-formed DAG, well typed, with at most one recorded writer per resource'),
+  ('C06_single_writer', 'History', 'store_single_writer', 'hence two recorded writers of one resource are the same task'),
   ('C06_detected', 'Local', 'validate_write_overlap', 'a recorded writer makes every further write / written_to of the resource an overlap'),
   ('C06_write_rejected_before_modification', 'Local', 'sess_write_rejected', 'Context::write aborts before the resource is modified'),
   ('C06_written_to_rejected', 'Local', 'sess_written_to_rejected', 'written_to aborts as well (the resource was already modified through create_writer)'),
   ('C06_abort_only_then', 'Local', 'sess_write_abort_only', 'a write aborts with overlap/hidden only when validate_write diagnoses it'),
-], 'Single-writer invariant over whole builds: see Inv.v (in progress).')
-SPEC['C07'] = ('Cyclic task requirements are detected instead of recursing', ['Local'], [
+], 'The single-writer invariant is proved over whole histories through the generic invariant principle (Inv.v, StoreInv.v, History.v); the only excluded outcome is the model-only abort ABug 4 (graph search fuel).')
+SPEC['C07'] = ('Cyclic task requirements are detected instead of recursing', ['Local', 'History'], [
+  ('C07_dependency_graph_acyclic_all_histories', 'History', 'store_acyclic', 'in every reachable store (C06_store_invariant_all_histories) the recorded dependency graph has no cycle'),
   ('C07_cycle_aborts_before_execution', 'Local', 'require_cycle_aborts',
    'if reserving the require edge is rejected as a cycle, require aborts with a cyclic dependency whatever make_task_consistent would do: it is never entered'),
 ], 'Together with C10 (add_edge rejects exactly when the destination reaches the source) this gives detection for cycles of any length; no-re-entry over whole builds is decided by correspondence + oracle.')
@@ -61,7 +64,8 @@ SPEC['C18'] = ('Checker errors during validation never cause stale reuse and are
   ('C18_td_error', 'Local', 'check_deps_error', 'top-down: an erring resource checker ends validation with "inconsistent", pushes the error, never aborts'),
   ('C18_bu_error', 'Local', 'try_schedule_error', 'bottom-up: an erring checker pushes the error and schedules the task'),
 ], 'For arbitrary checker records and worlds.')
-SPEC['C19'] = ('An aborted build leaves the Pie instance usable and sound', ['Local'], [
+SPEC['C19'] = ('An aborted build leaves the Pie instance usable and sound', ['Local', 'History'], [
+  ('C19_store_invariant_survives_aborts', 'History', 'run_history_ok', 'whatever aborts (task panic, cycle, hidden dependency, overlapping write, at any point), the world left behind satisfies the store invariant, from which every later session starts'),
   ('C19_no_output_executes', 'Local', 'make_consistent_no_output',
    'a task without output (new, or its last execution aborted) is executed without inspecting its left-over dependencies (so a ReservedRequire edge is never consistency-checked)'),
 ], 'PARTIAL: the Recoverable invariant over all abort points is in progress; decided by correspondence + oracle (panic injected at arbitrary operations).')
